@@ -239,6 +239,10 @@ func (i *Iblt) UnmarshalBinary(data []byte) error {
 	if len(data) != numBuckets*bucketBytes {
 		return errors.New("invalid data length")
 	}
+	if numBuckets < int(ibltK) {
+		// with fewer buckets than hash functions bucketIndices can't find k distinct buckets: it loops forever, or divides by zero for 0 buckets
+		return errors.New("invalid data length: fewer buckets than hash functions")
+	}
 	buf := bytes.NewBuffer(data)
 	i.hc = ibltHc
 	i.hk = ibltHk
